@@ -63,6 +63,8 @@ var (
 	reCovZero   = regexp.MustCompile(`^<(\w+) line .*>: 0:0`)
 	reSimStats  = regexp.MustCompile(`^The number of states generated: (\d+)`)
 	reSimTraces = regexp.MustCompile(`(\d+) traces generated`)
+	reRejected  = regexp.MustCompile(`TRACE-REJECTED at line", (\d+)`)
+	reTraceLine = regexp.MustCompile(`^/\\ l = (\d+)`)
 )
 
 var scratchSeq int
@@ -208,6 +210,12 @@ func (r *TLCRun) Start() (<-chan []byte, func() *TLCStats) {
 				if m := reCovZero.FindStringSubmatch(line); m != nil {
 					st.ZeroCover = append(st.ZeroCover, m[1])
 				}
+			}
+			if m := reRejected.FindStringSubmatch(line); m != nil {
+				st.Diameter, _ = strconv.ParseInt(m[1], 10, 64)
+				st.Errors = append(st.Errors, trunc(line, 400))
+			} else if m := reTraceLine.FindStringSubmatch(line); m != nil && !strings.Contains(strings.Join(st.Errors, ""), "TRACE-REJECTED") {
+				st.Diameter, _ = strconv.ParseInt(m[1], 10, 64) // last value of the trace position in a counterexample
 			}
 			if strings.HasPrefix(line, "Error:") || strings.Contains(line, "is violated") || strings.HasPrefix(line, "Deadlock reached") {
 				inErr = 12
